@@ -72,7 +72,8 @@ def coq_case(d, fx=True, sched="[]"):
 
 PRELUDE = ("From Coq Require Import List Bool Arith.\nFrom V.C09 Require Import Analysis.\n"
            "From V.C06 Require Import Linearity Token Hyps.\nImport ListNotations.\n")
-HYPS = ["uniform", "wf_shape", "h_exit", "all_reached", "events_wf", "io_ok", "exit_reachable"]
+HYPS = ["uniform", "wf_shape", "h_exit", "all_reached", "events_wf", "io_ok", "exit_reachable",
+        "typed", "edges_ok", "exit_row_ok", "wf_idx"]
 
 
 def eval_model(ctx, tag, dumps, fx=True, scheds=None, chunk=250):
